@@ -114,24 +114,35 @@ func (st *stateD) line(op string) string {
 
 // ---------------------------------------------------------------- component canonicalisation + decoder oracles
 
-func canon(c component.Component) string {
+// canon renders a component canonically (JSON). Components the codec cannot marshal (or panics on, e.g. a
+// decoded unknown colour name) get a fixed placeholder: the component itself is opaque to the model.
+func canon(c component.Component) (out string) {
+	defer func() {
+		if recover() != nil {
+			out = hx.HexS("<unmarshalable>")
+		}
+	}()
 	if c == nil {
-		return "nil"
+		return hx.HexS("<nil>")
 	}
 	b, err := util.Marshal(version.Minecraft_1_20_2.Protocol, c)
 	if err != nil {
-		return "unmarshalable"
+		return hx.HexS("<unmarshalable>")
 	}
 	return hx.Hex(b)
 }
 
 func oracle(f func() (component.Component, error)) (out string) {
-	defer func() {
-		if recover() != nil {
-			out = "P"
-		}
+	var c component.Component
+	var err error
+	panicked := func() (p bool) {
+		defer func() { p = recover() != nil }()
+		c, err = f()
+		return false
 	}()
-	c, err := f()
+	if panicked {
+		return "P"
+	}
 	if err != nil {
 		return "!"
 	}
